@@ -88,10 +88,13 @@ def work_item(args):
                                     rec['witnesses'].append(k)
                         elif v2.status == 'failed':
                             rec['model'] = v2.model
-                    if rec['status'] == 'failed':
+                    if rec['status'] == 'failed' and ob.name in seen:
+                        rec['replay'] = {'status': 'skipped', 'detail': 'same obligation already replayed on another path'}
+                    elif rec['status'] == 'failed':
+                        seen.add(ob.name)
                         try:
                             from lvc import replay
-                            rec['replay'] = replay.try_replay(world, kind, name, prop_id, ob, v)
+                            rec['replay'] = replay.try_replay(world, kind, name, prop_id, ob, v, pr)
                         except Exception as e:
                             rec['replay'] = {'status': 'error', 'detail': '%s: %s' % (type(e).__name__, e)}
                 elif v.status == 'undecided':
@@ -279,6 +282,48 @@ def _z3v():
     return z3.get_version_string()
 
 
+def selfcheck():
+    """setup_cmd: nothing to build; verify that the tools the checks need are present."""
+    import subprocess
+    import z3
+    from lvc.repo import Repo
+    ok = True
+    print('z3', z3.get_version_string())
+    r = Repo()
+    for m in ('lentil.field', 'lentil.extent', 'lentil.plane'):
+        if r.module(m) is None:
+            print('cannot read', m)
+            ok = False
+    p = subprocess.run(['/venv/bin/python', '-W', 'ignore', '-c', 'import numpy, scipy; print("native numpy", numpy.__version__)'],
+                       capture_output=True, text=True)
+    print(p.stdout.strip())
+    ok = ok and p.returncode == 0
+    w = build_world()
+    print('contracts loaded:', len(w.contracts))
+    return 0 if ok else 3
+
+
+def replay_file(path):
+    """Re-run the native part of a recorded replay and print the outcome of the real function."""
+    from lvc import replay
+    from lvc.repo import REPO
+    d = json.load(open(path))
+    rp = d.get('replay') or {}
+    if 'inputs' not in rp:
+        print('no concrete inputs recorded in', path, '(%s)' % rp.get('status'))
+        print(json.dumps({k: d.get(k) for k in ('obligation', 'counter_model', 'info')}, indent=1)[:3000])
+        return 0
+    w = build_world()
+    func = w.repo.function(rp['function'])
+    from lvc.prove import param_names
+    nat = replay.run_native(rp['function'], rp['inputs'], param_names(func), REPO)
+    print('obligation:', d['obligation'])
+    print('native outcome now:', json.dumps({k: nat.get(k) for k in ('kind', 'exc', 'msg', 'value', 'changed')})[:3000])
+    print('recorded        :', json.dumps(rp.get('native_outcome'))[:3000])
+    print('recorded failing clauses:', json.dumps(rp.get('failed_on_real_code'))[:2000])
+    return 0
+
+
 def main(argv):
     import argparse
     ap = argparse.ArgumentParser()
@@ -287,7 +332,14 @@ def main(argv):
     c.add_argument('prop')
     c.add_argument('--tier', default=os.environ.get('VERIF_TIER', 'quick'))
     c.add_argument('--jobs', type=int, default=None)
+    sub.add_parser('selfcheck')
+    r = sub.add_parser('replay')
+    r.add_argument('path')
     a = ap.parse_args(argv)
+    if a.cmd == 'selfcheck':
+        return selfcheck()
+    if a.cmd == 'replay':
+        return replay_file(a.path)
     if a.cmd == 'check':
         seed = int(os.environ.get('VERIF_SEED', '0'))
         try:
